@@ -218,6 +218,9 @@ impl FmtAttribute {
             let expr = if let Some(field) = fields
                 .fmt_args_idents()
                 .find(|field| expr == *field || expr == field.unraw())
+                // An explicit argument is a reference to the field (unlike a field named in the
+                // literal), which is observable with `Pointer` formatting only.
+                .filter(|_| self.args.is_empty() || trait_ident != "Pointer")
             {
                 field.into()
             } else {
